@@ -5,6 +5,7 @@ mod common;
 mod conc;
 mod heap;
 mod lang;
+mod editor;
 mod frontend;
 mod par;
 mod types;
